@@ -963,3 +963,96 @@ TABLE['std::fmt::Arguments::from_str'] = h_from_str
 for _k in ('std::fmt::format', 'core::fmt::rt::Argument::new_display', 'core::fmt::rt::Argument::new_debug', 'std::fmt::Arguments::new', 'std::fmt::Arguments::from_str'):
     CLASS[_k] = 'FMT'
     TABLE[_k].lazy = False
+
+
+# ---------------------------------------------------------------- modelled options and std::mem helpers
+
+@reg('OPTION', 'bool::then', 'core::bool::then', 'std::primitive::bool::then')
+def h_bool_then(vf, node, fn, args):
+    """c.then(|| v): Some(v) iff c, the closure evaluated only under c"""
+    c = tt(vf, vf.deref(args[0]))
+    f = vf.deref(args[1])
+    if not isinstance(f, Clos):
+        return vf.default_call('bool::then', args, node, fn)
+    vf.pc.append(c)
+    try:
+        v = vf.apply_closure(f, [])
+    finally:
+        vf.pc.pop()
+    return T.app('opt', c, tt(vf, v))
+
+
+@reg('OPTION', 'bool::then_some', 'core::bool::then_some', 'std::primitive::bool::then_some')
+def h_bool_then_some(vf, node, fn, args):
+    return T.app('opt', tt(vf, vf.deref(args[0])), tt(vf, vf.deref(args[1])))
+
+
+@reg('OPTION', 'std::option::Option::unwrap_or', 'std::option::Option::unwrap_or_default')
+def h_unwrap_or(vf, node, fn, args):
+    o = tt(vf, vf.deref(args[0]))
+    if T.is_app(o, 'opt'):
+        d = tt(vf, vf.deref(args[1])) if len(args) > 1 else T.app('default')
+        return T.ite(o[2][0], o[2][1], d)
+    return vf.default_call(callee_key(fn) if fn else 'std::option::Option::unwrap_or', args, node, fn)
+
+
+@reg('OPTION', 'std::option::Option::unwrap_or_else', 'std::option::Option::map_or', 'std::option::Option::map_or_else', 'std::option::Option::map')
+def h_opt_combinators(vf, node, fn, args):
+    key = callee_key(fn)
+    o = tt(vf, vf.deref(args[0]))
+    if not T.is_app(o, 'opt'):
+        return vf.default_call(key, args, node, fn)
+    cond, pay = o[2][0], o[2][1]
+
+    def call(f, xs, under):
+        f = vf.deref(f)
+        if not isinstance(f, Clos):
+            return None
+        vf.pc.append(under)
+        try:
+            return tt(vf, vf.apply_closure(f, xs))
+        finally:
+            vf.pc.pop()
+    if key.endswith('::map'):
+        r = call(args[1], [pay], cond)
+        return T.app('opt', cond, r) if r is not None else vf.default_call(key, args, node, fn)
+    if key.endswith('::unwrap_or_else'):
+        r = call(args[1], [], T.lnot(cond))
+        return T.ite(cond, pay, r) if r is not None else vf.default_call(key, args, node, fn)
+    if key.endswith('::map_or'):
+        r = call(args[2], [pay], cond)
+        return T.ite(cond, r, tt(vf, vf.deref(args[1]))) if r is not None else vf.default_call(key, args, node, fn)
+    r1, r2 = call(args[2], [pay], cond), call(args[1], [], T.lnot(cond))
+    return T.ite(cond, r1, r2) if r1 is not None and r2 is not None else vf.default_call(key, args, node, fn)
+
+
+@reg('MEM', 'std::mem::take')
+def h_mem_take(vf, node, fn, args):
+    """mem::take(&mut x): returns the old value of x and leaves Default::default() there"""
+    r = args[0]
+    if isinstance(r, Ref):
+        old = vf.read(r.place)
+        vf.write(r.place, T.app('default'))
+        return old
+    return vf.default_call('std::mem::take', args, node, fn)
+
+
+@reg('MEM', 'std::mem::replace')
+def h_mem_replace(vf, node, fn, args):
+    r = args[0]
+    if isinstance(r, Ref):
+        old = vf.read(r.place)
+        vf.write(r.place, vf.deref(args[1]))
+        return old
+    return vf.default_call('std::mem::replace', args, node, fn)
+
+
+@reg('MEM', 'std::mem::swap')
+def h_mem_swap(vf, node, fn, args):
+    a, b = args[0], args[1]
+    if isinstance(a, Ref) and isinstance(b, Ref):
+        va, vb = vf.read(a.place), vf.read(b.place)
+        vf.write(a.place, vb)
+        vf.write(b.place, va)
+        return T.UNIT
+    return vf.default_call('std::mem::swap', args, node, fn)
